@@ -52,9 +52,11 @@ fn child_doc(p: &Params, tag: &str) -> String {
             r##"<state id="run"><onentry>{sends}<raise event="finish"/></onentry>
    <transition event="finish" target="cfin"/>
    <transition event="h"><script>mark('fwd', _event.name, _event.data)</script></transition>
-  </state><final id="cfin"><onentry><script>mark('child-final', '{tag}')</script></onentry></final>"##,
+  </state><final id="cfin"><onentry><script>mark('child-final', '{tag}')</script></onentry>
+   <onexit><send event="c.{tag}" target="#_parent"><param name="seq" expr="{n}"/><param name="tag" expr="'{tag}'"/><param name="sid" expr="_sessionid"/></send></onexit></final>"##,
             sends = sends,
-            tag = tag
+            tag = tag,
+            n = p.n_child_events
         )
     };
     format!(
@@ -503,10 +505,11 @@ fn scenario(p: &Params, dir: &std::path::Path) -> Outcome {
                     // all events the child sent before finishing must have been processed
                     if !p.stream {
                         let last = seq_seen.get(&iid).cloned().unwrap_or(-1);
-                        if last != p.n_child_events as i64 - 1 {
+                        // (seq 0..n-1 from the running child, seq n from the <onexit> of its top-level final state)
+                        if last != p.n_child_events as i64 {
                             out.violations.push((
                                 "done-invoke-before-last-child-event".into(),
-                                format!("{} processed when only child events up to seq {} of {} had been processed", name, last, p.n_child_events),
+                                format!("{} processed when only child events up to seq {} of 0..={} had been processed (the last one is sent by the onexit handler of the child's final state)", name, last, p.n_child_events),
                             ));
                         }
                     }
